@@ -205,6 +205,7 @@ def u_load_patches(ctx, centers):
     class Par:
         COMM = mod("yaw.utils.parallel").COMM
         on_root = staticmethod(lambda: True)
+        on_worker = staticmethod(lambda: False)
         iter_unordered = staticmethod(iu_stub)
     cen = None
     if centers:
@@ -299,6 +300,7 @@ def u_cat_build_trees(ctx, binned, repeated=False):
     class Par:
         COMM = mod("yaw.utils.parallel").COMM
         on_root = staticmethod(lambda: True)
+        on_worker = staticmethod(lambda: False)
         iter_unordered = staticmethod(iu_stub)
     cat = C.Catalog.__new__(C.Catalog)
     cat.cache_directory = "/cache"
